@@ -121,9 +121,85 @@ let run_case fixed toks =
       (si (wm_ideal q !x.ns_log))
   | _ -> "BADCASE"
 
+
+(* ---- family co: two coordinators A1 (node 1), A2 (node 2) running the coordinator actions against the replica X (node 0) *)
+let run_co toks =
+  match toks with
+  | rf :: n0x :: n0a1 :: n0a2 :: ops ->
+    let rf = ni rf in
+    let q = quorum rf in
+    let c0 = cnt0 rf in
+    let cfg = { c_rf = rf; c_reps = [of_int 0; of_int 1; of_int 2]; c_limit = x_limit; c_cufix = true } in
+    let pre n = let rec go j acc = if j >= n then acc else go (j + 1) ({ en_tx = of_int (900 + j); en_first = of_int j; en_nev = of_int 1; en_off = N0; en_cnt = q } :: acc) in go 0 [] in
+    let nx = int_of_string n0x in
+    let pre n = List.map (fun e -> if BZ.geq (z_of_n e.en_first) (BZ.of_int nx) then { e with en_cnt = N0 } else e) (pre n) in
+    let xn = of_int 0 in
+    let x = ref { (ns_boot cfg xn (pre (int_of_string n0x)) x_alive) with ns_view = [(of_int 0, x_alive); (of_int 1, x_alive); (of_int 2, x_alive)] } in
+    (* a coordinator sees itself first, then X; when one replica cannot make a quorum (rf >= 4) further replicas that
+       never answer stand for the ones the harness does not have: the outcome (no quorum) is the same *)
+    let view i = [(of_int i, x_alive); (xn, x_alive)] @ (let rec ph j = if j >= BZ.to_int (z_of_n q) - 2 then [] else (of_int (7 + j), x_alive) :: ph (j + 1) in ph 0) in
+    let mk i n0 = { (ns_boot cfg (of_int i) (pre (int_of_string n0)) x_alive) with ns_view = view i } in
+    let a = [| !x; mk 1 n0a1; mk 2 n0a2 |] in
+    let bad = ref [] and seen = ref [] in
+    let flag fl c = String.contains fl c in
+    let mark_bad tx fl =
+      if not (List.exists (fun t -> t = tx) !seen) then begin
+        seen := tx :: !seen; if flag fl 'b' then bad := tx :: !bad end in
+    let orc () = orc_harness !bad in
+    let nops = List.length ops in
+    let toksr = Array.make nops "pend" in
+    let client = ref None in
+    (* messages a node emitted: replies of X go to the coordinator they name (or, for the harness's own xr writes, to the
+       token of that op); confirmations go to X; client replies are recorded *)
+    let rec route outs =
+      List.iter (function
+          | MRepAns (_, c, rid, t, res) ->
+            let ci = BZ.to_int (z_of_n c) in
+            if ci = 0 then (let i = BZ.to_int (z_of_n rid) in if i >= 0 && i < nops then toksr.(i) <- ares_s res)
+            else if ci = 1 || ci = 2 then begin
+              let (ns', o) = n_rep_reply cfg c a.(ci) xn t res in a.(ci) <- ns'; route o;
+              let (ns1, o1) = n_finish1 cfg c a.(ci) t true in a.(ci) <- ns1; route o1;
+              let (ns2, o2) = n_finish2 cfg c a.(ci) t in a.(ci) <- ns2; route o2
+            end
+          | MRep (c, r, alive, rid, t, ex, k, cnt) when BZ.equal (z_of_n r) BZ.zero ->
+            let (x', o) = n_replicate xn (orc ()) !x c alive rid t ex k cnt in x := x'; route o
+          | MConf (_, r, t, s, k, cnt, idsok) when BZ.equal (z_of_n r) BZ.zero ->
+            let (x', _) = n_confirm !x t s k cnt idsok true in x := x'
+          | MClient (_, _, res) -> client := Some res
+          | _ -> ()) outs in
+    List.iteri (fun i op ->
+        (match String.split_on_char ',' op with
+         | [("a1" | "a2") as o; tx; k; fl] ->
+           let ci = if o = "a1" then 1 else 2 in
+           let tx = ni tx in mark_bad tx fl;
+           client := None;
+           let (ns', outs) = n_client cfg (of_int ci) (orc ()) a.(ci) tx (ni k) in
+           a.(ci) <- ns'; route outs;
+           (* no answer from the replica (the write waits in its buffer): the coordinator gives up; then the late loop ends *)
+           let (ns2, o2) = n_timeout (of_int ci) a.(ci) tx in a.(ci) <- ns2;
+           (match !client with None -> route o2 | Some _ -> ());
+           toksr.(i) <- (match !client with
+               | Some (AOk f) -> "ok" ^ si f
+               | Some (AErr WDb) -> "db"
+               | Some (AErr (WQuorumFailed | WTimeout)) -> "fail"
+               | Some (AErr e) -> werr_s e
+               | None -> "fail")
+         | ["xr"; tx; seq; k; fl] ->
+           let tx = ni tx in mark_bad tx fl;
+           let ex = if flag fl 'e' then RxAny else RxAt (ni seq) in
+           let alive = if flag fl 'z' then N0 else u64max in
+           let (x', outs) = n_replicate xn (orc ()) !x (if flag fl 'f' then of_int 99 else xn) alive (of_int i) tx ex (ni k) c0 in
+           x := x'; route outs
+         | ["b"] -> toksr.(i) <- Printf.sprintf "X[%s]A[%s]B[%s]" (log_s !x.ns_log) (log_s a.(1).ns_log) (log_s a.(2).ns_log)
+         | _ -> failwith ("bad op " ^ op)))
+      ops;
+    Printf.sprintf "res=%s X=%s A1=%s A2=%s" (String.concat ";" (Array.to_list toksr)) (log_s !x.ns_log) (log_s a.(1).ns_log) (log_s a.(2).ns_log)
+  | _ -> "BADCASE"
+
 let dispatch line =
   match split_ws line with
   | "n" :: r -> run_case true r
+  | "co" :: r -> run_co r
   | "orig" :: "n" :: r -> run_case false r
   | _ -> "BADCASE"
 
